@@ -82,6 +82,7 @@ type Obligation struct {
 	Results []SolverResult
 	File    string
 	Known   *KnownFinding
+	BindErr string // a clause of this function's contract no longer binds to the code (renamed local, moved loop): failures are undecided, not violations
 	Witness string // replay key (kind/slot) when the obligation comes from an expansion
 	Props   []string
 	Sites   []Site
